@@ -59,7 +59,7 @@ func (c *Config) has(f string) bool {
 
 var allFeatures = []string{
 	"exits", "proposer_slashings", "attester_slashings", "deposits", "bls_changes", "sync_partial",
-	"forks", "late_atts", "low_balances", "blobs", "epoch_gap", "late_merge",
+	"forks", "late_atts", "low_balances", "blobs", "epoch_gap", "late_merge", "eth1_split",
 	// faults
 	"crash_restart", "multi_slot_jumps", "partition",
 }
@@ -761,6 +761,12 @@ func (w *World) produce(parent *blockRec, slot uint64) (*blockRec, error) {
 		w.eth1VotePeriod = slot / period
 	}
 	eth1 := *w.eth1Vote
+	if w.cfg.has("deposits") && w.cfg.has("eth1_split") && w.rng.Chance(1, 8) {
+		// a proposer that follows another eth1 block with the same deposits: votes split, a value can
+		// sit at exactly half of the period's votes
+		eth1.BlockHash = fnvRoot("eth1blk-alt", uint64(eth1.DepositCount)<<16|slot/period)
+		w.res.Stat("eth1_votes_for_the_other_eth1_block", 1)
+	}
 	if !w.cfg.has("deposits") {
 		eth1, _ = st.Eth1Data()
 	}
@@ -774,6 +780,9 @@ func (w *World) produce(parent *blockRec, slot uint64) (*blockRec, error) {
 		c, _ := votes.Count(eth1)
 		if (c+1)*2 > period {
 			stEth1 = eth1
+		}
+		if (c+1)*2 == period {
+			w.res.Stat("probe_eth1_vote_at_exactly_half_the_period", 1)
 		}
 	}
 	if uint64(stEth1.DepositCount) > uint64(depIdx) {
